@@ -151,4 +151,18 @@ def SpecStep (s : Server) (a : Spec) (op : Op) (a' : Spec) : Prop :=
   | .read _ _ _ => ∀ k, a' k = a k
   | .list _ => ∀ k, a' k = a k
 
+/-- One step of the specification for front-end operations: a Foolscap allocation is an allocation;
+    losing connection `c` makes exactly the uploads in progress whose handle is registered on `c`
+    absent and changes nothing else. -/
+def FSpecStep (s : Server) (a : Spec) (op : FOp) (a' : Spec) : Prop :=
+  match op with
+  | .direct o => SpecStep s a o a'
+  | .allocConn _ si shs size _ _ _ =>
+    ∀ k, a' k = a k ∨ (k.1 = si ∧ k.2 ∈ shs ∧ a k = .absent ∧
+                        a' k = .inProgress size (List.replicate size none))
+  | .disconnect c =>
+    ∀ k, match getK k s.incoming with
+      | some (w, _) => a' k = if (widsOfConn s c).contains w.wid then .absent else a k
+      | none => a' k = a k
+
 end Tahoe.Storage.Imm
